@@ -571,3 +571,98 @@ def excerpt(case, limit=60):
         d = {k: S.jsonable(val) for k, val in e.items() if k not in ("thread", "args", "kwargs", "value")}
         out.append(d)
     return out
+
+
+# ------------------------------------------------------------------------------------------------
+# generic per-execution monitors (no program spec needed): usable on ANY workload, also on the repository's own tests.
+# They read the dependency list / flags tawazi itself attached to the node being executed (recorded in XENTER) - the
+# spec-based monitors above remain the authority for "the build recorded the right dependencies".
+# ------------------------------------------------------------------------------------------------
+def check_generic(log):
+    """Returns (violations, stats) over every execution token present in `log`."""
+    viol = []
+    st = Counter()
+    by_tok = {}
+    for e in log:
+        t = e.get("token")
+        if t is not None:
+            by_tok.setdefault(t, []).append(e)
+    for tok, evs in by_tok.items():
+        pool = next((e for e in evs if e["kind"] == "POOL_NEW"), None)
+        if pool is None:
+            continue
+        st["generic_executions"] += 1
+        mw = pool.get("max_workers") or 1
+        sched_thread = pool["thread"]
+        xenter, xexit, meta, count, failed = {}, {}, {}, Counter(), {}
+        fut2node, task2fut = {}, {}
+        for e in evs:
+            k = e["kind"]
+            if k == "XENTER":
+                count[e["node"]] += 1
+                xenter.setdefault(e["node"], e["seq"])
+                meta.setdefault(e["node"], e)
+                if e.get("fut") is not None:
+                    fut2node[e["fut"]] = e["node"]
+            elif k == "XEXIT":
+                xexit.setdefault(e["node"], e["seq"])
+                if not e["ok"]:
+                    failed[e["node"]] = e["seq"]
+            elif k == "SUBMIT" and e.get("task") is not None:
+                task2fut[e["task"]] = e["fut"]
+
+        def add(prop, mech, **w):
+            viol.append({"prop": prop, "mech": "generic:" + mech, "witness": dict(w, token=tok)})
+
+        for x, c in count.items():
+            st["generic_c03_nodes"] += 1
+            if c > 1:
+                add("C03", "node_executed_%d_times_in_one_execution" % c, node=x)
+        for x, e in meta.items():
+            for d in e.get("deps", []):
+                if d in xenter:
+                    st["generic_c02_edges"] += 1
+                    if not (d in xexit and xexit[d] < xenter[x]):
+                        add("C02", "started_before_dependency_finished", node=x, dep=d, dep_enter=xenter[d], dep_exit=xexit.get(d), node_enter=xenter[x])
+            res = e.get("res")
+            if res is None:
+                continue
+            st["generic_c04_threads"] += 1
+            if res == "main-thread":
+                if e["thread"] != sched_thread:
+                    add("C04", "main_thread_node_off_invoking_thread", node=x)
+            else:
+                if e["thread"] == sched_thread or e.get("inline"):
+                    add("C04", "pooled_node_on_invoking_thread", node=x, resource=res)
+                running = [y for y, m in meta.items() if m.get("res") not in (None, "main-thread") and xenter[y] <= xenter[x]
+                           and not (y in xexit and xexit[y] < xenter[x])]
+                if len(running) > mw:
+                    add("C04", "more_than_max_concurrency_running", at=x, running=sorted(running), max_workers=mw)
+            if e.get("is_seq"):
+                a0, a1 = xenter[x], xexit.get(x, 1 << 60)
+                for y in xenter:
+                    if y != x:
+                        st["generic_c05_pairs"] += 1
+                        b0, b1 = xenter[y], xexit.get(y, 1 << 60)
+                        if not (a1 < b0 or b1 < a0):
+                            add("C05", "sequential_node_overlapped", sequential=x, other=y, seq_interval=(a0, xexit.get(x)), other_interval=(b0, xexit.get(y)))
+        # C14: nothing is dispatched after the wait return (or inline exit) that delivered a failure
+        seen = None
+        for e in evs:
+            if e["kind"] == "WAIT_RET":
+                nodes = [fut2node.get(f) for f in e.get("done", [])] + [fut2node.get(task2fut.get(t)) for t in e.get("done_tasks", [])]
+                if any(nn in failed for nn in nodes if nn is not None):
+                    seen = e["seq"] if seen is None else min(seen, e["seq"])
+            elif e["kind"] == "XEXIT" and not e["ok"] and meta.get(e["node"], {}).get("inline"):
+                seen = e["seq"] if seen is None else min(seen, e["seq"])
+        if seen is not None:
+            st["generic_c14_failures_observed"] += 1
+            for e in evs:
+                if e["seq"] > seen and (e["kind"] in ("SUBMIT", "TASK_NEW") or (e["kind"] == "XENTER" and e.get("inline"))):
+                    if e["kind"] == "TASK_NEW" and not str(e.get("coro", "")).endswith("to_thread_in_executor"):
+                        continue
+                    if e["kind"] == "SUBMIT" and e.get("task") is not None:
+                        continue  # the pool submit of an async-thread node decided earlier (its TASK_NEW is the decision)
+                    add("C14", "dispatch_after_failure_was_observed", event=e["kind"], node=e.get("node"), failure_seen_at=seen, at=e["seq"])
+                    break
+    return viol, st
